@@ -580,6 +580,13 @@ impl RCmd {
                     cx.mark(m, 0);
                     return Run::Finished;
                 }
+                P::SpawnEvent(m, s) => {
+                    // ctx.spawn: the child goes to the spawn queue and runs later in this settle
+                    self.spawnq.push(task(RK::Fresh(P::Event(m))));
+                    let mut a = Src::new(s);
+                    cx.eff(&mut a, Kind::Once, 0);
+                    t.kind = RK::Req { a, map: false };
+                }
                 P::SpawnJoin(s, m) | P::JoinTwice(s, m) => {
                     // ctx.spawn: the child goes to the spawn queue; its slot is the next free one
                     // at insertion time. We insert immediately (same settle, it runs after us).
@@ -1329,6 +1336,14 @@ impl RState {
         }
         self.unbound.retain(|(u, _)| *u != uid);
         h
+    }
+
+    /// `Command::spawn(&mut self, ..)` by whoever holds the top-level command: one more task (a
+    /// request followed by an event) joins the root command's spawn queue.
+    pub fn spawn_more(&mut self, site: S) {
+        if let Some(r) = self.roots.first_mut() {
+            r.spawnq.push(task(RK::Fresh(P::Req(site))));
+        }
     }
 
     pub fn all_fin(&self) -> bool {
